@@ -265,6 +265,50 @@ def followups(model: Model, call: Dict[str, Any], rng) -> List[Dict[str, Any]]:
     return out
 
 
+ENCLOSING_SOURCE = '''
+import icontract
+
+
+def runs(thunk):
+    thunk()
+    return True
+
+
+@icontract.require(runs)
+def inside_condition(thunk):
+    return None
+
+
+@icontract.snapshot(lambda thunk: runs(thunk), name="ran")
+@icontract.ensure(lambda OLD: OLD.ran)
+def inside_capture(thunk):
+    return None
+
+
+@icontract.invariant(lambda self: True)
+class Enclosing:
+    def inside_body(self, thunk):
+        return thunk()
+'''
+
+ENCLOSURES = ("condition", "capture", "method-body")
+_ENCLOSING = {}  # type: Dict[str, Any]
+
+
+def enclosed(w, which: str, thunk) -> None:
+    """Run the thunk while ANOTHER check of this very flow is in progress (inside a condition or a capture of another function, inside
+    the body of a public method of an object with invariants): the calls made there end and are followed up like anywhere else."""
+    if "loaded" not in _ENCLOSING:
+        _ENCLOSING["loaded"] = prog.load_source(ENCLOSING_SOURCE, w.scratch())
+    mod = _ENCLOSING["loaded"].module
+    if which == "condition":
+        mod.inside_condition(thunk)
+    elif which == "capture":
+        mod.inside_capture(thunk)
+    else:
+        mod.Enclosing().inside_body(thunk)
+
+
 def run_program(w, prog_index: int, is_async: bool) -> None:
     rng = w.rng
     ids = gen.Ids()
@@ -310,6 +354,12 @@ def run_program(w, prog_index: int, is_async: bool) -> None:
                     for kind in these:
                         n_faults = 1 if w.tier == "quick" else rng.choice((1, 1, 2, 3))
                         run_faulted(w, loaded, model, contracts, plan, spec, full, instance, idx, label, kind, sc["tag"], prog_index, n_faults)
+                        if rng.random() < 0.2:
+                            # the same faulted call and its follow-ups made while another check of this flow is in progress
+                            which = rng.choice(ENCLOSURES)
+                            w.count("faulted_runs_inside_another_check")
+                            enclosed(w, which, lambda: run_faulted(w, loaded, model, contracts, plan, spec, full, instance, idx, label, kind,  # pylint: disable=cell-var-from-loop
+                                                                   sc["tag"], prog_index, n_faults, enclosure=which))  # pylint: disable=cell-var-from-loop
     finally:
         probe.REPR_HOOK = None
         probe.DRIVE_HOOK = None
@@ -317,8 +367,10 @@ def run_program(w, prog_index: int, is_async: bool) -> None:
 
 
 def run_faulted(w, loaded, model, contracts, plan: Plan, spec, full, instance, idx: int, label: str, kind: str, tag: str, prog_index: int,
-                n_faults: int) -> None:
+                n_faults: int, enclosure: Optional[str] = None) -> None:
     case = {"prog": spec, "call": full, "point": idx, "label": label, "kind": kind, "scenario": tag, "faults": n_faults}
+    if enclosure is not None:
+        case["enclosure"] = enclosure
     before = in_progress_snapshot()
     obs = None
     for _ in range(n_faults):
@@ -329,7 +381,7 @@ def run_faulted(w, loaded, model, contracts, plan: Plan, spec, full, instance, i
         injected, injected_at = plan.injected, plan.injected_at
         plan.disarm()
         w.count("faulted_runs")
-        w.case((prog_index, full.get("name") or full.get("key") or "ctor", tag, idx, kind))
+        w.case((prog_index, full.get("name") or full.get("key") or "ctor", tag, idx, kind, enclosure))
         w.distinct("fault_sites", (label.split(":")[0], kind))
         if injected is None:
             # the point was not reached this time (e.g. a different path after an earlier fault in a sequence)
@@ -1115,8 +1167,13 @@ def replay(case, w) -> None:
         instance = None
         if full["target"] == "member":
             instance = runner.construct(loaded, model, full["cls"]).instance
-        run_faulted(w, loaded, model, contracts, plan, spec, full, instance, case["point"], case["label"], case["kind"], case.get("scenario", "?"),
-                    0, case.get("faults", 1))
+        if case.get("enclosure"):
+            enclosed(w, case["enclosure"], lambda: run_faulted(w, loaded, model, contracts, plan, spec, full, instance, case["point"], case["label"],
+                                                               case["kind"], case.get("scenario", "?"), 0, case.get("faults", 1),
+                                                               enclosure=case["enclosure"]))
+        else:
+            run_faulted(w, loaded, model, contracts, plan, spec, full, instance, case["point"], case["label"], case["kind"], case.get("scenario", "?"),
+                        0, case.get("faults", 1))
     finally:
         probe.REPR_HOOK = None
         probe.DRIVE_HOOK = None
